@@ -84,6 +84,71 @@ def h_equal(ctx, cfg):
                     lambda: dict(info(), got=sources_key(R), want=sources_key(E)))
 
 
+_TRAMP = """
+BR = [0]
+
+def invoke(func, *a, **k):
+    return func(*a, **k)
+
+%s
+def wrapper(*args, **kwargs):
+%s
+"""
+
+
+def h_trampoline(ctx, cfg):
+    """Several forwarding calls through the same relay function, each handing it a different target: the discovered
+    signature is the merge of the forwards() to each target (the relay is transparent), or the plain signature when
+    the targets are incompatible."""
+    import linecache
+    count = 2 + (sym.flip('three-targets') if cfg.get('three') else 0)
+    specs = U.gen_sigs(count, cfg['K'], cfg.get('total'), allow_stars=cfg.get('allow_stars', False))
+    form = ('if-else', 'sequence', 'nested-defs')[sym.pick(3, 'form')]
+    order = sym.flip('reversed')
+    with sym.notrace():
+        idx = list(range(count))
+        if order:
+            idx.reverse()
+        ctx.case('relay[%s] %s order=%s' % (form, render_specs(specs), idx), nontrivial=False)
+        defs = ''.join('def t%d(%s):\n    return None\n\n' % (j, sp.deflist()) for j, sp in enumerate(specs))
+        calls = ['invoke(t%d, *args, **kwargs)' % j for j in idx]
+        if form == 'if-else':
+            body = ''.join('    if BR[0] == %d:\n        return %s\n' % (n, c) for n, c in enumerate(calls)) + '    return None\n'
+        elif form == 'sequence':
+            body = ''.join('    %s\n' % c for c in calls) + '    return None\n'
+        else:
+            body = ''.join('    def _c%d():\n        return %s\n' % (n, c) for n, c in enumerate(calls)) + \
+                '    return [%s]\n' % ', '.join('_c%d()' % n for n in range(len(calls)))
+        src = _TRAMP % (defs, body)
+        _tramp_counter[0] += 1
+        fname = '<symx-relay-%d>' % _tramp_counter[0]
+        linecache.cache[fname] = (len(src), None, src.splitlines(True), fname)
+        ns = {'__name__': 'symx_relay'}
+        exec(compile(src, fname, 'exec'), ns)
+    wrapper = ns['wrapper']
+    try:
+        with sym.concrete():
+            R = sigtools.signature(wrapper)
+    except Exception as e:
+        ctx.require('discovery-does-not-raise', False, lambda: dict(exc=repr(e), text=src))
+        return
+    with sym.concrete():
+        outer = S.signature(wrapper)
+        try:
+            E = S.merge(*[S.forwards(outer, S.signature(ns['t%d' % j])) for j in idx])
+            how = 'merged'
+        except ValueError:
+            E = outer
+            how = 'plain:incompatible-targets'
+    ctx.count('expected:' + how)
+    ctx.nontrivial = True
+    ctx.require('relay-same-parameters', params_key(R, True) == params_key(E, True),
+                lambda: dict(discovered=str(R), expected=str(E), how=how))
+
+
+_tramp_counter = [0]
+
+
 QUICK = dict(
     shapes=dict(Ko=0, Kc=1, kmax=1, nmax=1),
     contexts=dict(Ko=0, Kc=1, kmax=0, nmax=0),
@@ -92,7 +157,7 @@ QUICK = dict(
 )
 QUICK_BOUNDS = ('sum of four focus groups — shapes: 4x4 star forms x <=1 fixed positional x <=1 keyword name (callee or foreign) x '
                 'callee <=1 named, bare outer; contexts: 34 statement contexts (incl. loop bodies where a later statement precedes the next call, comprehension targets shadowing a star, except / else / finally / for / while / match / conditional-expression bodies and 9 nested defs / lambdas whose own parameter of any kind shadows a star) x 6 routes x pristine/absent stars; taints: 44 '
-                'taint + 7 non-taint statements before/after the call; unresolvable: 3 kinds x 34 contexts')
+                'taint + 7 non-taint statements before/after the call; unresolvable: 5 kinds (incl. a callee that is a local def / lambda of the wrapper while a global has the same name) x 8 contexts')
 THOROUGH = dict(
     shapes=dict(Ko=1, Kc=2, kmax=2, nmax=2),
     contexts=dict(Ko=1, Kc=1, kmax=1, nmax=0),
@@ -117,6 +182,9 @@ def plan(tier):
                                     'nested-shadow-kw-kwonly']),
                  bounds='5 argument expressions (constant, kwargs.pop, hand-off, len(args), walrus) as the fixed positional of a call deferred into a nested def / lambda / comprehension (6 contexts), pristine stars, callee <=1 named',
                  min_nontrivial=100),
+            dict(name='relay-two-targets', fn='h_trampoline', depth=8, budget_s=180, cfg=dict(K=1, total=2),
+                 bounds='2 forwarding calls through the same relay function with different targets (<=1 named parameter each) x if/else, sequence, nested defs x both orders',
+                 min_nontrivial=100, must_reach=['relay-same-parameters']),
         ]
     return [
         dict(name='grammar-thorough', fn='h_equal', depth=12, budget_s=3300, cfg=THOROUGH,
